@@ -117,7 +117,7 @@ func compare(a, b interface{}, c collate) int {
 		case int64:
 			return cmpInt64(at, bt)
 		case float64:
-			return cmpFloat64(float64(at), bt)
+			return cmpIntFloat(at, bt)
 		case string, []byte:
 			return -1
 		default:
@@ -128,7 +128,7 @@ func compare(a, b interface{}, c collate) int {
 		case nil:
 			return 1
 		case int64:
-			return cmpFloat64(at, float64(bt))
+			return -cmpIntFloat(bt, at)
 		case float64:
 			return cmpFloat64(at, bt)
 		case string, []byte:
@@ -182,4 +182,29 @@ func cmpFloat64(a, b float64) int {
 	default:
 		return 1
 	}
+}
+
+// cmpIntFloat compares an integer with a float by their exact numeric values,
+// the way SQLite does (sqlite3IntFloatCompare() in vdbeaux.c). Converting the
+// integer to a float64 first would make distinct integers above 2^53 compare
+// equal to the same float.
+func cmpIntFloat(i int64, r float64) int {
+	if r != r {
+		// NaN. Can't be stored by SQLite, sorts below every integer.
+		return 1
+	}
+	if r < -9223372036854775808.0 {
+		return 1
+	}
+	if r >= 9223372036854775808.0 {
+		return -1
+	}
+	y := int64(r)
+	if i < y {
+		return -1
+	}
+	if i > y {
+		return 1
+	}
+	return cmpFloat64(float64(i), r)
 }
